@@ -43,9 +43,17 @@ static int
 varint_decode(ByteBuffer *b, const size_t maxoctets, union varint64 *n)
 {
     const unsigned char *buf = b->data + b->offset;
+    /* Octets that may be read: up to the end of the buffer's memory. The fill
+     * mark is not the bound; decoding from memory handed over with
+     * byte_buffer_space() is supported. */
+    const size_t rest = (b->offset < b->size) ? (b->size - b->offset) : 0u;
     n->u = 0u;
 
     for (size_t i = 0u; i < maxoctets; ++i) {
+        if (i >= rest) {
+            /* The varint is cut off by the end of the buffer. */
+            return -ENODATA;
+        }
         const unsigned char datum = buf[i];
         n->u |= (uint64_t)(datum & VARINT_DATA_MASK) << (i * VARINT_DATA_BITS);
         if (varint_done(datum)) {
